@@ -52,13 +52,68 @@ def units(tier, seed, only=None):
     return us
 
 
+COMPILE_PATH = ['orccompiler', 'orcprogram-x86', 'orcrules-sse', 'orcrules-avx', 'orcrules-mmx', 'orcx86', 'orcx86insn', 'orcsse', 'orcavx', 'orcmmx',
+                'orcprogram-sse', 'orcprogram-avx', 'orcprogram-mmx', 'orctarget', 'orcrule', 'orcprogram', 'orccode', 'orccodemem']
+# mutable objects with static storage duration that exist in the compile path, each with the reason why it cannot carry
+# history from one compile into the next one's output
+STATIC_ALLOW = [
+    (r'::x86_regs$', 'table of register-name string literals, never written'),
+    (r'_get_flag_name::1::flags$', 'table of flag-name string literals, never written'),
+    (r'^orc_(sse|avx|mmx)_init::1::(t|target)$', 'target descriptors, filled once at registration'),
+    (r'^_orc_compiler_flag_(backup|emulate|debug|randomize|list)$', 'set once by _orc_compiler_init from ORC_CODE'),
+    (r'^_orc_codemem_alignment$', 'set once by _orc_compiler_init'),
+    (r'^orc_code_(regions|n_regions)$', 'code memory regions: placement only (C09)'),
+    (r'^(default_target|n_targets|targets)$', 'target registry (C19/C20)'),
+]
+
+
+def static_state_fact():
+    """Supporting static fact for the frame of C17: the only mutable static-storage objects in the files of the compile path
+    are the allow-listed ones.  An unknown one makes the check UNDECIDED (exit 2), never a violation: a new static may be
+    harmless, but the claim 'no state survives a compile' is then no longer backed."""
+    import json, os, subprocess, tempfile, shutil
+    wd = tempfile.mkdtemp(prefix='orcverif.c17static.', dir=core.SCRATCH_ROOT)
+    unknown = []
+    n = 0
+    try:
+        for f in COMPILE_PATH:
+            gb = os.path.join(wd, f + '.gb')
+            r = subprocess.run(['goto-cc'] + core.cc_flags() + ['-c', os.path.join(core.REPO, 'orc', f + '.c'), '-o', gb], capture_output=True, text=True)
+            if r.returncode != 0:
+                return [{'name': 'static: mutable static storage in the compile path', 'ok': None, 'detail': 'goto-cc failed for %s: %s' % (f, r.stderr[-300:])}]
+            out = subprocess.run(['goto-instrument', '--show-symbol-table', '--json-ui', gb], capture_output=True, text=True).stdout
+            tab = None
+            for x in json.loads(out):
+                if isinstance(x, dict) and 'symbolTable' in x:
+                    tab = x['symbolTable']
+            if tab is None:
+                return [{'name': 'static: mutable static storage in the compile path', 'ok': None, 'detail': 'no symbol table for ' + f}]
+            for name, sym in tab.items():
+                if not sym.get('isStaticLifetime') or sym.get('isExtern') or sym.get('isType'):
+                    continue
+                loc = sym.get('location', {})
+                if '/repo/orc' not in loc.get('file', '') or sym.get('type', {}).get('id') == 'code':
+                    continue
+                pt = sym.get('prettyType', '')
+                if pt.startswith('const ') and '*' not in pt.split('[')[0]:
+                    continue
+                n += 1
+                if not any(re.search(pat, name) for pat, why in STATIC_ALLOW):
+                    unknown.append('%s (%s, %s:%s)' % (name, pt[:30], os.path.basename(loc.get('file', '')), loc.get('line')))
+    finally:
+        shutil.rmtree(wd, ignore_errors=True)
+    return [{'name': 'static: mutable static storage in the compile path', 'ok': True if not unknown else None,
+             'detail': ('%d mutable static objects, all allow-listed with a reason' % n) if not unknown else
+                       'mutable static storage that is not on the allow list (the frame of C17 is not backed any more; review and add a contract or a reason): ' + '; '.join(unknown)}]
+
+
 def run(tier, seed, only=None):
     try:
         us = units(tier, seed, only)
     except core.ToolError as e:
         print('C17: tool error: %s' % e)
         return 2
-    return runner.run_property(PROP, us, tier, seed, assumptions=ASSUME)
+    return runner.run_property(PROP, us, tier, seed, static_results=(static_state_fact() if not only else []), assumptions=ASSUME)
 
 
 def replay(path):
